@@ -1,12 +1,30 @@
 /-
 C10 — Resource limits and cancellation are hard bounds (walk-engine clauses; the image-layer byte
 limit is `C10_layer_bytes` in Properties/C10Layer.lean).
+
+CONFIGURATION CLASSES (classes of configurations, not narrowing hypotheses on the input):
+  * EVERY configuration (any limit, fatal errors or not, cancellation before / inside any `Extract`, panicking
+    extractors, all combinations): the hard bounds `C10_inodes` (processed inodes ≤ MaxInodes), `C10_size`,
+    `C10_cancel_walk`, `C10_cancel_same_file`, `C10_cancel_before`.
+  * `LimitCfg c` (inode limit set; errors not fatal, no cancellation, no panicking extractor): EXACT theorem
+    `C10_inodes_exact` (+ `C10_fails_when_more`, `C10_visits_vs_inodes`).
+  * `CancelCfg c k` (cancelled from inside the k-th `Extract`; no inode limit, errors not fatal, no panicking
+    extractor): EXACT theorems `C10_cancel_trace`, `C10_cancel_outcome`, `C10_cancel_prefix`, `C10_cancel_between`.
+  * Every NON-FATAL configuration without a panicking extractor — including limit + cancellation together and
+    cancellation before the scan — is described exactly by `run_trace` (Proofs/WalkTrace.lean), of which the two
+    classes above are corollaries.  Combinations with `ErrorOnFSErrors` (limit+fatal, cancellation+fatal) have the
+    hard bounds plus `C09_eofs_only_by_failing` (if the scan does not fail with the filesystem error it IS the
+    non-fatal scan); configurations with a panicking extractor have only the hard bounds.
+All theorems are for every forest, fault plan and option combination; `DomainLaw c.giMatch` (go-git's domain rule)
+is the only hypothesis on the gitignore matcher (it is needed even with `useGitignore = false` only because the
+refinement lemma is stated once for both settings).
 -/
 import Scalibr.Proofs.WalkInv
 import Scalibr.Proofs.WalkMore
 import Scalibr.Spec.Walk
 import Scalibr.Proofs.WalkLimit
 import Scalibr.Proofs.WalkCancel
+import Scalibr.Proofs.WalkAnchor
 namespace Scalibr.Walk
 
 /-- Whatever the forest, fault plans, options and cancellation point: `AfterInodeVisited` — i.e. an inode
@@ -31,28 +49,31 @@ theorem C10_cancel_walk (c : Cfg) (f : Faults) (s : St) (p : Path) (n : Node) (h
   walkNode_cancelled c f s p n hc
 
 /-- … and the extractions still started after a cancellation from inside `Extract` all concern the file
-being handled at that moment: the loop over extractors only ever makes attempts for its own file. -/
+being handled at that moment: the loop over extractors only ever makes attempts for its own file.  (A structural
+fact of the loop, independent of cancellation; the cancellation-specific statement is `C10_cancel_trace`.) -/
 theorem C10_cancel_same_file (c : Cfg) (f : Faults) (p : Path) (size : Nat) (rs : List Nat) (s : St) (chk : Bool) :
     ∃ cs, (extractLoop c f p size s rs chk).1.calls = s.calls ++ cs ∧ ∀ cl ∈ cs, cl.path = p :=
   extractLoop_paths c f p size rs s chk
 
-/-- A scan whose context is already cancelled makes no extraction at all and fails (when there is
-anything to scan). -/
-theorem C10_cancel_before (c : Cfg) (hc : c.cancelBefore = true) (hp : c.paths = []) (r : Node) (f : Faults)
-    (rest : List (Node × Faults)) :
-    (run c ((r, f) :: rest)).err ≠ .none ∧ (run c ((r, f) :: rest)).calls = [] := by
-  unfold run
-  simp only [runRoots, runRoot, hp, List.isEmpty_nil, if_true, hc]
-  have key : (walkFrom c f { cancelled := true } r []).2 ≠ .none ∧ (walkFrom c f { cancelled := true } r []).1.calls = [] := by
-    unfold walkFrom
-    split
-    · exact fserrCall_cancelled c _ rfl
-    · simp only [lookup]
-      exact walkNode_cancelled c f _ [] r rfl
-  generalize walkFrom c f { cancelled := true } r [] = x at key ⊢
-  obtain ⟨s1, e1⟩ := x
-  simp only [] at key ⊢
-  simp [key.1, key.2]
+/-- A scan whose context is already cancelled (EVERY configuration, requested paths included, at least one root):
+no extraction is attempted and the scan fails — with the context error after reporting exactly ONE inode (the
+first `handleFile` call), except in one corner: with `ErrorOnFSErrors` and gitignore handling, an unreadable parent
+`.gitignore` of a requested directory is met before any `handleFile` call and fails the scan with the filesystem
+error instead (0 inodes). -/
+theorem C10_cancel_before (c : Cfg) (hc : c.cancelBefore = true) (r : Node) (f : Faults) (rest : List (Node × Faults)) :
+    (run c ((r, f) :: rest)).calls = [] ∧
+    (((run c ((r, f) :: rest)).err = .ctx ∧ (run c ((r, f) :: rest)).visited = 1) ∨
+     ((run c ((r, f) :: rest)).err = .fs ∧ (run c ((r, f) :: rest)).visited = 0 ∧
+       c.errorOnFSErrors = true ∧ c.useGitignore = true ∧ c.paths ≠ [])) :=
+  run_cancelBefore c hc r f rest
+
+/-- … so for whole-tree scans, or when errors are not fatal, or without gitignore handling:
+`err = .ctx ∧ calls = [] ∧ visited = 1`. -/
+theorem C10_cancel_before_ctx (c : Cfg) (hc : c.cancelBefore = true)
+    (hq : c.paths = [] ∨ c.errorOnFSErrors = false ∨ c.useGitignore = false)
+    (r : Node) (f : Faults) (rest : List (Node × Faults)) :
+    (run c ((r, f) :: rest)).err = .ctx ∧ (run c ((r, f) :: rest)).calls = [] ∧ (run c ((r, f) :: rest)).visited = 1 :=
+  run_cancelBefore_ctx c hc hq r f rest
 
 /-! Non-vacuity: a file of exactly the limit is extracted, one byte more is not. -/
 def exC : Cfg := { nExt := 1, required := fun _ _ => true, extract := fun _ _ => {}, maxFileSize := 5,
@@ -66,14 +87,52 @@ extractors do not panic, model A behaves — for every forest, fault plan, optio
 cancellation point — like the sequential machine "count the inode, check the context, make the attempts"
 run over `traceScan`, the specification's list of `handleFile` calls. -/
 
-/-- "… fails when the tree holds more": with an inode limit (errors not fatal, no cancellation, no extractor
-panic) the scan fails with the MaxInodes error EXACTLY when the forest holds more inodes to visit than the
-limit, and reports exactly `min visitsScan MaxInodes` visited inodes.  `visitsScan` (Spec/WalkCount.lean) is
-defined on the trees, fault plans and skip rules only; the counter is shared by all roots. -/
+/-- Exact behaviour at the inode limit (class `LimitCfg`).  `visitsScan` (Spec/WalkCount.lean; anchored declaratively
+by `C10_visits_vs_inodes`) counts the `handleFile` CALLS of the scan run to the end, which is what the engine's
+counter counts — NOT inodes: every inode the walk gets to costs one call, and in addition an entered directory that
+cannot be opened, the first failing `ReadDir` of a listing, and a start path that cannot be stat'ed / does not exist
+are each reported by one more call that also increments the counter.  The scan fails with the MaxInodes error
+EXACTLY when that number exceeds the limit, and reports exactly `min visitsScan MaxInodes` visits.  The counter is
+shared by all roots.  For the property's wording in terms of inodes see `C10_inodes` (never more than the limit
+are processed), `C10_fails_when_more` (it fails when the forest holds more reachable inodes than the limit) and the
+remark at `C10_early_failure_witness` (error reports can make it fail although the inodes alone would fit). -/
 theorem C10_inodes_exact (c : Cfg) (hl : LimitCfg c) (hd : DomainLaw c.giMatch) (roots : List (Node × Faults)) :
     (run c roots).err = (if visitsScan c roots > c.maxInodes then .maxInodes else .none) ∧
     (run c roots).visited = min (visitsScan c roots) c.maxInodes :=
   run_limit c hl hd roots
+
+/-- **Calls versus inodes** (no hypothesis on the configuration).  `reachableInodesScan` (Spec/WalkNodes.lean) is the
+declarative count of the INODES a scan gets to: the records of `allNodes` (every node of a tree, files and
+directories, with the chain of directories above it) all of whose ancestor directories are not excluded, can be
+opened and list without failure up to the entry leading on; a requested file counts 1, a start path that cannot be
+stat'ed or does not exist counts 0.  Then `visitsScan` = the same enumeration with `1 + secondCalls` per record
+(`callsScan`), hence inodes ≤ calls, with EQUALITY when no directory open / read fails and every start path can be
+stat'ed and exists. -/
+theorem C10_visits_vs_inodes (c : Cfg) (roots : List (Node × Faults)) :
+    visitsScan c roots = callsScan c roots ∧ reachableInodesScan c roots ≤ visitsScan c roots ∧
+    ((∀ rf ∈ roots, NoWalkFaults rf.2 ∧ (if c.paths.isEmpty then rf.2.statFail [] = false
+        else ∀ p ∈ c.paths, rf.2.statFail p = false ∧ lookup rf.1 p ≠ none)) →
+      visitsScan c roots = reachableInodesScan c roots) :=
+  ⟨visitsScan_anchor c roots, reachableInodesScan_le_visitsScan c roots, visitsScan_eq_reachable' c roots⟩
+
+/-- "… and fails when the tree holds more" (class `LimitCfg`): if the forest holds more reachable inodes than the
+limit, the scan fails with the MaxInodes error (having processed exactly `MaxInodes` of them: `C10_inodes_exact`). -/
+theorem C10_fails_when_more (c : Cfg) (hl : LimitCfg c) (hd : DomainLaw c.giMatch) (roots : List (Node × Faults))
+    (h : reachableInodesScan c roots > c.maxInodes) : (run c roots).err = .maxInodes := by
+  have := (C10_inodes_exact c hl hd roots).1
+  have hle := reachableInodesScan_le_visitsScan c roots
+  rw [this, if_pos (by omega)]
+
+/-- … and conversely, when nothing on the walk fails, it fails ONLY then: with no failing directory open / read and
+all start paths present, `err = .maxInodes ↔ reachable inodes > limit`. -/
+theorem C10_fails_iff_more (c : Cfg) (hl : LimitCfg c) (hd : DomainLaw c.giMatch) (roots : List (Node × Faults))
+    (hnf : ∀ rf ∈ roots, NoWalkFaults rf.2 ∧ (if c.paths.isEmpty then rf.2.statFail [] = false
+        else ∀ p ∈ c.paths, rf.2.statFail p = false ∧ lookup rf.1 p ≠ none)) :
+    (run c roots).err = .maxInodes ↔ reachableInodesScan c roots > c.maxInodes := by
+  have h1 := (C10_inodes_exact c hl hd roots).1
+  rw [visitsScan_eq_reachable' c roots hnf] at h1
+  rw [h1]
+  split <;> simp_all
 
 /-- "… once its context is cancelled starts no extraction on any further file … reporting failure whenever
 work remained": the context is cancelled from inside the k-th `Extract` (no inode limit, errors not fatal,
@@ -117,20 +176,37 @@ theorem C10_cancel_outcome (c : Cfg) (k : Nat) (hc : CancelCfg c k) (hd : Domain
     ((run c roots).calls, (run c roots).err, (run c roots).visited) = cancelOutcome k 0 (traceScan c roots) :=
   run_cancel_outcome c k hc hd roots
 
+/-- **Cancellation "between files".**  The engine looks at the context only at the start of a `handleFile` call, so it
+cannot tell at which moment DURING a call the context was cancelled: a cancellation from inside ANY `Extract` of
+the j-th call (`cancelAt`) has exactly the outcome of a cancellation arriving between the j-th call and the next one
+(`cancelBetween j`: the calls so far complete, nothing later attempted, failure iff a call remained, which is still
+counted as visited).  Hence every between-calls cancellation point that follows a call which ran at least one
+`Extract` IS one of the modelled `cancelAt` points, and `C10_cancel_outcome` describes it.
+NOT expressible at scan level in this model (nor producible by the harness, whose cancellations are triggered from
+inside a fake `Extract`, or before the scan — `cancelBefore`, `C10_cancel_before`): a cancellation arriving after a
+call that ran no `Extract` (a directory, an ignored or not required file).  For those points the statements are the
+step theorem `C10_cancel_walk` (from ANY cancelled state the next walk step attempts nothing and fails, which every
+enclosing loop passes on) together with the hard bounds; the observable difference to the nearest modelled point is
+only the number of inodes reported before the failure. -/
+theorem C10_cancel_between (k : Nat) (pre : List (List Call)) (blk : List Call) (post : List (List Call))
+    (h1 : openedCount pre.flatten < k) (h2 : k ≤ openedCount (pre.flatten ++ blk)) :
+    cancelOutcome k 0 (pre ++ blk :: post) = cancelBetween (pre.length + 1) (pre ++ blk :: post) :=
+  cancelOutcome_between k pre blk post h1 h2
+
 /-! Non-vacuity (specification side only).  A tree with 5 inodes to visit (also 5 when directory `d` cannot be
 opened: the failure is reported by a second call and `b` is not reached; 6 + 1 with a failing end-of-listing
 read of the root and a second root, since the counter is shared) against a limit of 3 / of 5. -/
 def exL (n : Nat) : Cfg := { nExt := 1, required := fun _ _ => true, extract := fun _ _ => {}, maxInodes := n,
                              giMatch := fun _ _ _ _ => false }
-def exTree : Node := .dir none [("a", .file .reg 1), ("d", .dir none [("b", .file .reg 2)]), ("e", .file .reg 3)]
+def exTreeL : Node := .dir none [("a", .file .reg 1), ("d", .dir none [("b", .file .reg 2)]), ("e", .file .reg 3)]
 example : LimitCfg (exL 3) ∧ DomainLaw (exL 3).giMatch := ⟨⟨by decide, rfl, rfl, rfl, fun _ _ => rfl⟩, fun _ _ _ _ _ => rfl⟩
-example : visitsScan (exL 3) [(exTree, {})] = 5 ∧ visitsScan (exL 3) [(exTree, { openFail := fun p => p = ["d"] })] = 5 ∧
-    visitsScan (exL 3) [(exTree, { readEntryFail := fun p k => p = [] ∧ k = 3 }), (.file .reg 1, {})] = 7 := by decide
+example : visitsScan (exL 3) [(exTreeL, {})] = 5 ∧ visitsScan (exL 3) [(exTreeL, { openFail := fun p => p = ["d"] })] = 5 ∧
+    visitsScan (exL 3) [(exTreeL, { readEntryFail := fun p k => p = [] ∧ k = 3 }), (.file .reg 1, {})] = 7 := by decide
 /-- the theorem at work: over the limit the scan fails after exactly 3 visits, at the limit it succeeds -/
-example : (run (exL 3) [(exTree, {})]).err = .maxInodes ∧ (run (exL 3) [(exTree, {})]).visited = 3 ∧
-    (run (exL 5) [(exTree, {})]).err = .none := by
-  have h3 := C10_inodes_exact (exL 3) ⟨by decide, rfl, rfl, rfl, fun _ _ => rfl⟩ (fun _ _ _ _ _ => rfl) [(exTree, {})]
-  have h5 := C10_inodes_exact (exL 5) ⟨by decide, rfl, rfl, rfl, fun _ _ => rfl⟩ (fun _ _ _ _ _ => rfl) [(exTree, {})]
+example : (run (exL 3) [(exTreeL, {})]).err = .maxInodes ∧ (run (exL 3) [(exTreeL, {})]).visited = 3 ∧
+    (run (exL 5) [(exTreeL, {})]).err = .none := by
+  have h3 := C10_inodes_exact (exL 3) ⟨by decide, rfl, rfl, rfl, fun _ _ => rfl⟩ (fun _ _ _ _ _ => rfl) [(exTreeL, {})]
+  have h5 := C10_inodes_exact (exL 5) ⟨by decide, rfl, rfl, rfl, fun _ _ => rfl⟩ (fun _ _ _ _ _ => rfl) [(exTreeL, {})]
   rw [h3.1, h3.2, h5.1]
   decide
 
@@ -155,5 +231,38 @@ example : (run (exK 1) [(exTree2, {})]).calls = [⟨0, ["a"], 1, true⟩, ⟨1, 
 example : cancelOutcome 4 0 (traceScan (exK 4) [(exTree2, {})]) = (mustExtract (exK 4) [(exTree2, {})], .none, 3) := by decide
 /-- never reached: 4 `Extract` calls owed, cancellation in the 5th -/
 example : openedCount (mustExtract (exK 5) [(exTree2, {})]) < 5 := by decide
+
+/-! ### Remark: error reports count against the inode limit (calls ≠ inodes)
+
+The auditor's witness: root directory with one sub-directory `d` that cannot be opened — 2 inodes, but 3 `handleFile`
+calls (the failing `Open` is reported by a second call for `d`, which increments the engine's counter again).  With
+`MaxInodes = 2` the scan FAILS with the MaxInodes error although the tree holds exactly 2 inodes; without the fault it
+succeeds.  The property's two clauses hold ("processes no more inodes than the limit": `C10_inodes`; "fails when the
+tree holds more": `C10_fails_when_more`), but the failure can come EARLIER than the inode count alone would give:
+each error report costs one unit of the budget.  This mirrors `walkDirUnsorted`'s second call into `handleFile`,
+where `wc.inodesVisited++` runs before the error is looked at. -/
+def exDTree : Node := .dir none [("d", .dir none [])]
+def exDFault : Faults := { openFail := fun p => p = ["d"] }
+example : reachableInodesScan (exL 2) [(exDTree, exDFault)] = 2 ∧ visitsScan (exL 2) [(exDTree, exDFault)] = 3 ∧
+    visitsScan (exL 2) [(exDTree, {})] = 2 := by decide
+theorem C10_early_failure_witness :
+    (run (exL 2) [(exDTree, exDFault)]).err = .maxInodes ∧ (run (exL 2) [(exDTree, {})]).err = .none ∧
+    reachableInodesScan (exL 2) [(exDTree, exDFault)] ≤ (exL 2).maxInodes := by
+  have h1 := C10_inodes_exact (exL 2) ⟨by decide, rfl, rfl, rfl, fun _ _ => rfl⟩ (fun _ _ _ _ _ => rfl) [(exDTree, exDFault)]
+  have h2 := C10_inodes_exact (exL 2) ⟨by decide, rfl, rfl, rfl, fun _ _ => rfl⟩ (fun _ _ _ _ _ => rfl) [(exDTree, {})]
+  rw [h1.1, h2.1]
+  decide
+/-- the fault-free hypothesis of `C10_visits_vs_inodes` / `C10_fails_iff_more` is satisfiable -/
+example : ∀ rf ∈ [(exTreeL, ({} : Faults))], NoWalkFaults rf.2 ∧ (if (exL 3).paths.isEmpty then rf.2.statFail [] = false
+    else ∀ p ∈ (exL 3).paths, rf.2.statFail p = false ∧ lookup rf.1 p ≠ none) := by
+  intro rf hrf
+  simp only [List.mem_singleton] at hrf
+  subst hrf
+  exact ⟨⟨fun _ => rfl, fun _ _ => rfl⟩, by simp [exL]⟩
+/-- `C10_cancel_between` on the example: cancelling inside the 1st `Extract` (file `a`, call 2 of the trace) = cancelling
+between call 2 and call 3 -/
+example : cancelOutcome 1 0 (traceScan (exK 1) [(exTree2, {})]) = cancelBetween 2 (traceScan (exK 1) [(exTree2, {})]) := by decide
+/-- `C10_cancel_before` hypotheses are satisfiable with requested paths -/
+example : ({ exK 1 with cancelBefore := true, paths := [["a"]] } : Cfg).cancelBefore = true := rfl
 
 end Scalibr.Walk
